@@ -61,6 +61,11 @@ def totality(analysis: Analysis, res: RuleResult) -> None:
             res.add("C03-R1", f"{ver}: VALID_PAYLOADS[{tname}] exists", prow is not None, mod, "")
             if prow is None:
                 continue
+            extra = sorted(int(k) for k in prow if int(k) not in set(want))
+            # extra rows are latent only: whether an undefined sub-type is accepted is decided by the
+            # sub-type validator that Message.validate builds (C03-R4), so this is a note, not a violation
+            if extra:
+                res.extra.setdefault("notes", []).append(f"{ver}: payload rules exist for sub-type values {extra} of {tname} that {enum} does not define (table shared with another version)")
             for sval in want:
                 okp = str(sval) in prow
                 rows_total += 1
